@@ -225,6 +225,34 @@ _CMPOPS = {
     ast.Gt: operator.gt, ast.GtE: operator.ge, ast.Is: operator.is_, ast.IsNot: operator.is_not,
     ast.In: lambda a, b: a in b, ast.NotIn: lambda a, b: a not in b,
 }
+_TYPE_ATTRS = {(int, 'from_bytes'), (bytes, 'fromhex'), (bytearray, 'fromhex'), (str, 'maketrans'), (bytes, 'maketrans'), (bytearray, 'maketrans'),
+               (dict, 'fromkeys'), (str, 'join'), (bytes, 'join'), (str, 'format'), (str, 'lower'), (str, 'upper'), (int, 'bit_length'),
+               (dict, '__getitem__'), (dict, 'get'), (list, '__getitem__'), (tuple, '__getitem__'), (str, 'isdigit'), (bytes, 'isdigit')}
+
+
+_NO_DEFAULT = object()
+
+
+def _getattr(obj, name, default=_NO_DEFAULT):
+    """getattr for model objects supplied by a rule and for values whose attribute is whitelisted."""
+    node = ast.Attribute(value=ast.Name(id='__obj__', ctx=ast.Load()), attr=name, ctx=ast.Load())
+    try:
+        return ev(node, {'__obj__': obj})
+    except PyRaise as ex:
+        if default is not _NO_DEFAULT and issubclass(ex.cls, AttributeError):
+            return default
+        raise
+    except AttributeError:
+        if default is not _NO_DEFAULT:
+            return default
+        raise PyRaise(AttributeError, None, f'{type(obj).__name__!r} object has no attribute {name!r}')
+
+
+def _hasattr(obj, name):
+    sentinel = object()
+    return _getattr(obj, name, sentinel) is not sentinel
+
+
 def _isinstance(obj, cls):
     if isinstance(cls, tuple):
         return any(_isinstance(obj, c) for c in cls)
@@ -239,7 +267,7 @@ _BUILTINS = {
     'ord': ord, 'chr': chr, 'int': int, 'str': str, 'bytes': bytes, 'bytearray': bytearray,
     'divmod': divmod, 'abs': abs, 'bool': bool, 'float': float, 'any': any, 'all': all,
     'reversed': lambda x: list(reversed(x)), 'enumerate': lambda *a, **k: list(enumerate(*a, **k)),
-    'zip': lambda *a: list(zip(*a)), 'isinstance': _isinstance, 'iter': iter, 'next': lambda it, *d: next(it if hasattr(it, '__next__') else iter(it), *d),
+    'zip': lambda *a: list(zip(*a)), 'isinstance': _isinstance, 'getattr': _getattr, 'hasattr': _hasattr, 'iter': iter, 'next': lambda it, *d: next(it if hasattr(it, '__next__') else iter(it), *d),
     'None': None, 'True': True, 'False': False, 'round': round, 'repr': repr, 'hex': hex, 'vars': vars,
     'namedtuple': collections.namedtuple, 'property': property,
     'map': lambda f, *its: [f(*a) for a in zip(*its)], 'filter': lambda f, it: [x for x in it if (f(x) if f is not None else x)],
@@ -250,16 +278,19 @@ _BUILTINS = {
     'AssertionError': AssertionError, 'ImportError': ImportError, 'StopIteration': StopIteration,
 }
 _SAFE_METHODS = {
-    dict: {'keys', 'values', 'items', 'get', 'pop', 'update', 'setdefault', 'copy'},
+    dict: {'keys', 'values', 'items', 'get', 'pop', 'update', 'setdefault', 'copy', '__getitem__', '__contains__', 'clear', 'popitem'},
     str: {'lower', 'upper', 'find', 'index', 'count', 'startswith', 'endswith', 'join', 'split',
           'strip', 'rstrip', 'lstrip', 'format', 'encode', 'isdigit', 'rfind', 'replace', 'translate', 'partition', 'rpartition', 'title', 'zfill',
           'isalnum', 'isalpha', 'isupper', 'islower', 'splitlines', 'casefold', 'capitalize', 'center', 'ljust', 'rjust', 'isspace', 'isascii', 'isnumeric', 'isdecimal'},
-    bytes: {'find', 'index', 'count', 'lower', 'upper', 'startswith', 'endswith', 'decode', 'isdigit', 'join', 'split', 'strip', 'hex', 'replace', 'rfind'},
-    bytearray: {'find', 'index', 'count', 'extend', 'append', 'pop'},
-    tuple: {'index', 'count'},
+    bytes: {'find', 'index', 'count', 'lower', 'upper', 'startswith', 'endswith', 'decode', 'isdigit', 'join', 'split', 'strip', 'hex', 'replace', 'rfind',
+            'translate', 'rstrip', 'lstrip', 'zfill', 'ljust', 'rjust', 'partition', 'rpartition', 'isalnum', 'isalpha', 'isupper', 'islower', 'isspace', 'center',
+            'rsplit', 'splitlines', 'title', 'capitalize', 'swapcase', 'isascii', '__getitem__', '__contains__'},
+    bytearray: {'find', 'index', 'count', 'extend', 'append', 'pop', 'translate', 'decode', 'hex', 'startswith', 'endswith', 'rfind', 'replace', 'join',
+                'insert', 'reverse', 'clear', 'copy', 'strip', 'rstrip', 'lstrip', 'zfill', 'split', 'isdigit', '__getitem__', '__contains__'},
+    tuple: {'index', 'count', '__getitem__', '__contains__'},
     int: {'to_bytes', 'bit_length'},
     __import__('decimal').Decimal: {'quantize', 'normalize', 'to_integral_value', 'is_finite', 'as_tuple'},
-    list: {'index', 'count', 'append', 'extend', 'pop', 'insert', 'remove', 'clear', 'sort', 'reverse', 'copy'},
+    list: {'index', 'count', 'append', 'extend', 'pop', 'insert', 'remove', 'clear', 'sort', 'reverse', 'copy', '__getitem__', '__contains__'},
     frozenset: {'union', 'intersection'},
     set: {'union', 'intersection', 'add', 'discard', 'update', 'issubset', 'issuperset', 'difference', 'copy'},
 }
@@ -361,6 +392,8 @@ def ev(node, env):
             return getattr(base, node.attr)
         if base is tuple and node.attr == '__new__':
             return tuple.__new__
+        if isinstance(base, type) and (base, node.attr) in _TYPE_ATTRS:
+            return getattr(base, node.attr)
         if isinstance(base, type) and hasattr(base, '_classval') and (node.attr in ('__new__', '_make', '_fields') or not node.attr.startswith('_')) and hasattr(base, node.attr):
             return getattr(base, node.attr)
         if hasattr(type(base), '_classval') and (not node.attr.startswith('__')) and hasattr(base, node.attr):
@@ -442,6 +475,8 @@ def ev(node, env):
         return True
     if t is ast.IfExp:
         return ev(node.body, env) if ev(node.test, env) else ev(node.orelse, env)
+    if t is ast.Slice:
+        return slice(ev(node.lower, env) if node.lower else None, ev(node.upper, env) if node.upper else None, ev(node.step, env) if node.step else None)
     if t is ast.Subscript:
         base = ev(node.value, env)
         if isinstance(node.slice, ast.Slice):
